@@ -170,7 +170,7 @@ func c10races(text string) []string {
 }
 
 // executions per program and shard of the bound-2 pass of the thorough tier (16 shards)
-const c10ThoroughExecsPerShard = 100
+const c10ThoroughExecsPerShard = 60
 
 func TestC10(t *testing.T) {
 	rigSetup()
